@@ -1096,7 +1096,7 @@ func c15GenScenario(c *Ctx, idx int) *c15Scn {
 }
 
 func genC15(c *Ctx) {
-	n := c.N(14, 120)
+	n := c.N(30, 300)
 	for i := 0; i < n; i++ {
 		scn := c15GenScenario(c, i)
 		dir, err := os.MkdirTemp(c.Tmp, "c15-")
